@@ -140,6 +140,8 @@ func init() {
 					defer os.Remove(f.Name())
 					cfg.ExclusionFile = []string{f.Name()}
 				}
+				cfg.DisableHTMLTag = strList(in, "disableHTMLTag")
+				cfg.CaptureAlternatePages = boolean(in, "captureAlternatePages", false)
 				cfg.DisableAssetsCapture = boolean(in, "disableAssets", false)
 				cfg.MaxHops = num(in, "maxHops", 0)
 				cfg.MaxRedirect = num(in, "maxRedirect", 20)
